@@ -247,6 +247,30 @@ theorem enum_unit_roundtrip {e : EnumDecl} {m : EnumMeta} {size : Nat} (hp : par
   have hread := matchReadArms_of_mem m.variants _ hmem rfl hnd
   simp only [enumRead, hlen, if_false, hrepr, hraw, hread]
 
+/-! ### the macro's numbering is rustc's (since the fix of parse_enum: accumulator starts at -1, alternatives do not advance it) -/
+
+/-- With the constants re-read from parse_enum.rs (`Generated/WireMacro.lean`), the discriminant the macro assigns to each
+    declared variant is the one rustc assigns: explicit value, else previous + 1, first 0. -/
+theorem macroDiscs_eq_rustDiscs : ∀ (vs : List VariantDecl) (next : Int),
+    macroDiscs vs (next - 1) = rustDiscsFrom vs next
+  | [], _ => rfl
+  | v :: rest, next => by
+    cases hd : v.disc with
+    | some d =>
+      have ih := macroDiscs_eq_rustDiscs rest (d + 1)
+      rw [show d + 1 - 1 = d by omega] at ih
+      simp [macroDiscs, rustDiscsFrom, variantDiscriminant, accumAfter, Gen.WireMacro.alternativesAdvance, hd, ih]
+    | none =>
+      have ih := macroDiscs_eq_rustDiscs rest (next + 1)
+      rw [show next + 1 - 1 = next by omega] at ih
+      have e : next - 1 + 1 = next := by omega
+      simp [macroDiscs, rustDiscsFrom, variantDiscriminant, accumAfter, Gen.WireMacro.alternativesAdvance,
+        Gen.WireMacro.implicitStep, hd, e, ih]
+
+theorem macro_numbering_is_rustc (vs : List VariantDecl) :
+    macroDiscs vs Gen.WireMacro.accumInit = rustDiscsFrom vs 0 :=
+  macroDiscs_eq_rustDiscs vs 0
+
 /-- Decidable sufficient condition for a derived enum to obey the codec laws: accepted, supported repr, read arms pairwise
     distinct, every variant's discriminant a value of the repr, and — unless there is a catch-all, in which case the write
     side uses the macro's numbers too — rustc's numbering equal to the macro's (true when all discriminants are explicit). -/
